@@ -385,8 +385,9 @@ func IdxFor(sub, dims []int) int {
 //
 // If sub is non-nil the result is stored in-place into sub, and SubFor will panic
 // if len(sub) != len(dims). If sub is nil a new slice of the appropriate length
-// is allocated. SubFor panics if idx < 0 or if idx is greater than or equal to
-// the product of the dimensions.
+// is allocated. SubFor panics if idx < 0, if idx is greater than or equal to
+// the product of the dimensions, or if any of the entries of dims are
+// non-positive.
 func SubFor(sub []int, idx int, dims []int) []int {
 	if sub == nil {
 		sub = make([]int, len(dims))
@@ -397,16 +398,17 @@ func SubFor(sub []int, idx int, dims []int) []int {
 	if idx < 0 {
 		panic(errNegInput)
 	}
+	for _, d := range dims {
+		if d <= 0 {
+			panic(errNonpositiveDimension)
+		}
+	}
 	stride := 1
 	for i := len(dims) - 1; i >= 1; i-- {
 		stride *= dims[i]
 	}
 	for i := 0; i < len(dims)-1; i++ {
 		v := idx / stride
-		d := dims[i]
-		if d < 0 {
-			panic(errNonpositiveDimension)
-		}
 		if v >= dims[i] {
 			panic("combin: index too large")
 		}
